@@ -1747,21 +1747,36 @@ class Rule(metaclass=LogicalType):
         if not options.ignore_constraints:
             # if options ignore constraints, we will just do type transform
             # constraints_inst = cls.constraints_cls(cls, options=options)
-            for key, constraint, validator in cls.__validators__:
-                # constraint = getattr(cls, key)
+            def validate(_key, _constraint, _validator, _value):
                 try:
-                    value = validator(value, constraint)
+                    return _validator(_value, _constraint)
                 except Exception as e:
                     error = (
                         e
                         if isinstance(e, exc.ConstraintError)
                         else exc.ConstraintError(
-                            origin_exc=e, constraint=key, constraint_value=constraint
+                            origin_exc=e, constraint=_key, constraint_value=_constraint
                         )
                     )
                     # if validator already throw a constraint error
                     # may an inner constraint (like max_contains in contains) is violated
                     context.handle_error(error)
+                    return _value
+
+            passed = []
+            for key, constraint, validator in cls.__validators__:
+                # constraint = getattr(cls, key)
+                errors = len(context.errors)
+                result = validate(key, constraint, validator, value)
+                if getattr(validator, "__name__", key) == key:
+                    if len(context.errors) == errors:
+                        passed.append((key, constraint, validator))
+                elif result is not value:
+                    # a lax constraint transformed the value: the strict constraints
+                    # that were checked before it must hold for the output as well
+                    for item in passed:
+                        validate(*item, result)
+                value = result
 
             if cls.contains:
                 value = cls._parse_contains(value, context=context)
